@@ -470,6 +470,11 @@ func vtC09BRunWith(x []int64, cfg *configuration.ColocationCfg, labels map[strin
 			node.Annotations[slov1alpha1.NodeThirdPartyAllocationsAnnotationKey] = string(data)
 		}
 	}
+	// cpu-normalization ratio carried by the NodeResource (written there by the cpunormalization plugin)
+	normKind, normH := int64(0), int64(0)
+	if len(c.in)-c.i >= 2 {
+		normKind, normH = c.next(), c.next()
+	}
 	for k, v := range labels {
 		node.Labels[k] = v
 	}
@@ -487,30 +492,51 @@ func vtC09BRunWith(x []int64, cfg *configuration.ColocationCfg, labels map[strin
 	if err != nil || len(items) != 2 || items[0].Name != extension.BatchCPU || items[1].Name != extension.BatchMemory {
 		return []int64{-1}
 	}
+	// the item quantities as calculated (read before any Prepare)
+	itemVals := []int64{}
+	for _, it := range items {
+		if it.Quantity == nil {
+			itemVals = append(itemVals, -2)
+		} else {
+			itemVals = append(itemVals, it.Quantity.Value())
+		}
+	}
 	nr := framework.NewNodeResource(items...)
+	switch normKind {
+	case 0:
+	case 1:
+		nr.Annotations[extension.AnnotationCPUNormalizationRatio] = fmt.Sprintf("%d.%02d", normH/100, normH%100)
+	default:
+		nr.Annotations[extension.AnnotationCPUNormalizationRatio] = "fast"
+	}
+	node2 := node.DeepCopy() // the node as fetched again for the status update
 	// production (framework.RunNodePrepareExtenders) logs a Prepare error and goes on with the node as
 	// Prepare left it; the only error generated here is the unparsable third-party annotation (kind 3)
 	if err := p.Prepare(strategy, node, nr); err != nil && tpKind != 3 {
 		return []int64{-2}
 	}
-	pub := func(rn corev1.ResourceName) int64 {
-		q, ok := node.Status.Allocatable[rn]
+	pubOf := func(n *corev1.Node, rn corev1.ResourceName) int64 {
+		q, ok := n.Status.Allocatable[rn]
 		if !ok {
 			return -1
 		}
 		return q.Value()
 	}
+	pub := func(rn corev1.ResourceName) int64 { return pubOf(node, rn) }
 	if items[0].Reset || items[1].Reset {
 		return []int64{vtB(items[0].Reset && items[1].Reset && items[0].Quantity == nil && items[1].Quantity == nil),
 			pub(extension.BatchCPU), pub(extension.BatchMemory)}
 	}
 	obs := []int64{0, pub(extension.BatchCPU), pub(extension.BatchMemory)}
-	for _, it := range items {
-		if it.Quantity == nil {
-			obs = append(obs, -2)
-		} else {
-			obs = append(obs, it.Quantity.Value())
+	obs = append(obs, itemVals...)
+	// Prepare is called again on the SAME NodeResource (need-sync check, then the status / meta update,
+	// once more per conflict retry): what the repeated call publishes goes to the end of the observable
+	var second []int64
+	if vtC09SecondPrepare {
+		if err := p.Prepare(strategy, node2, nr); err != nil && tpKind != 3 {
+			return []int64{-2}
 		}
+		second = []int64{pubOf(node2, extension.BatchCPU), pubOf(node2, extension.BatchMemory)}
 	}
 	obs = append(obs, int64(len(items[0].ZoneQuantity)))
 	for i := 0; i < len(items[0].ZoneQuantity); i++ {
@@ -523,10 +549,15 @@ func vtC09BRunWith(x []int64, cfg *configuration.ColocationCfg, labels map[strin
 		}
 		obs = append(obs, qc.Value(), qm.MilliValue())
 	}
-	return obs
+	return append(obs, second...)
 }
 
+// set by the batch stream only: the cfg stream keeps the single-Prepare observable
+var vtC09SecondPrepare bool
+
 func vtC09BExec(in []int64) []int64 {
+	vtC09SecondPrepare = true
+	defer func() { vtC09SecondPrepare = false }()
 	k, delta := in[0], in[1]
 	base := in[2:]
 	obs := vtC09BRun(base)
@@ -724,6 +755,17 @@ func vtC09BGen(r *rand.Rand, i int) (string, []int64) {
 		raise = append(raise, pos(), pos()+1)
 	}
 	in = append(in, amtCPU(capCPU/3), amtCPU(capMem/3))
+	// cpu-normalization ratio of the NodeResource ("h/100"; only a ratio above 1.00 amplifies batch-cpu)
+	switch r.Intn(6) {
+	case 0:
+		in = append(in, 1, []int64{100, 101, 150, 200, 133, 500, 99, 0}[r.Intn(8)])
+	case 1:
+		in = append(in, 1, int64(100+r.Intn(201)))
+	case 2:
+		in = append(in, 2, 150)
+	default:
+		in = append(in, 0, 0)
+	}
 	// metamorphic perturbation: raise one consumption input (or lower the node allocatable)
 	if r.Intn(8) != 0 {
 		scale := capMem/4 + 2
